@@ -1,8 +1,8 @@
 #!/bin/bash
-# tools/seed_verify.sh <Cxx> <crate> : verify a seeded change delivered in /tmp/seed-<Cxx>/out
+# tools/seed_verify.sh <Cxx> <crate> [round] : verify a seeded change delivered in /tmp/seed-<Cxx>[-round]/out
 #  - demo fails with the change, passes without (in the agent's worktree, reusing its target dir)
 #  - runs the registered check against the change (scratch worktree) and stores everything under /verif/seeded/<Cxx>/
-ID=$1; CRATE=$2; S=/tmp/seed-$ID; R=$S/repo; OUT=/verif/seeded/$ID
+ID=$1; CRATE=$2; TAG=${3:+-$3}; S=/tmp/seed-$ID$TAG; R=$S/repo; OUT=/verif/seeded/$ID$TAG
 mkdir -p $OUT
 cp $S/out/patch.diff $OUT/patch.diff
 cp $S/out/seeded_demo.rs $OUT/ 2>/dev/null
@@ -18,16 +18,16 @@ echo "== applies to /repo HEAD?"; git -C /repo apply --check $OUT/patch.diff && 
 echo "== registered check against the change"
 res=$(/verif/tools/mutant_run.sh $ID $OUT/patch.diff --tier quick 2>&1); rc=$?
 echo "$res" | grep -E "VIOLATION|sig=|INCONCLUSIVE|KNOWN|tier=" | cut -c1-400 | head -8
-python3 - "$ID" "$with" "$without" "$applies" "$rc" "$res" <<'PY'
+python3 - "$ID" "$with" "$without" "$applies" "$rc" "$res" "$ID$TAG" <<'PY'
 import json,sys
-id_,with_,without,applies,rc,res=sys.argv[1:7]
-a=json.load(open(f'/verif/seeded/{id_}/meta.agent.json'))
+id_,with_,without,applies,rc,res,dir_=sys.argv[1:8]
+a=json.load(open(f'/verif/seeded/{dir_}/meta.agent.json'))
 sigs=[l.strip() for l in res.split('\n') if 'sig=' in l][:4]
 m={"property":id_,"breaks":a.get("what_it_breaks"),"needs_to_manifest":a.get("needs_to_manifest"),"files_touched":a.get("files_touched"),
    "agent_existing_tests":a.get("existing_tests_run"),
    "confirmed":{"demo_with_change":with_,"demo_without_change":without,"patch_applies_to_repo_head":applies,
                 "how":"tools/seed_verify.sh: demo run in the agent's worktree with and without the source change (git stash), then tools/mutant_run.sh <id> patch.diff --tier quick (scratch worktree of /repo HEAD)"},
    "check_result":{"exit_code":int(rc),"caught":int(rc)==1,"first_signatures":[s[:300] for s in sigs]}}
-json.dump(m,open(f'/verif/seeded/{id_}/meta.json','w'),indent=1)
+json.dump(m,open(f'/verif/seeded/{dir_}/meta.json','w'),indent=1)
 print("caught" if int(rc)==1 else f"NOT CAUGHT (rc={rc})")
 PY
